@@ -354,24 +354,26 @@ func (e *Env) engineTags(st *rm.State, rq gen.Request) string {
 // grantTags: the known "loses a tuple" defects (F1, F10) turn into wrongly GRANTED access when the
 // lost membership sits under an exclusion's subtrahend.
 func (e *Env) grantTags(st *rm.State, rq gen.Request) string {
+	inv := ""
 	for _, t := range st.Tuples {
 		if !e.Sc.Model.ValidForRead(t) {
 			// only the weighted-graph path is known to honour such tuples (F25); the tag is inert for v1
-			return " state_has_tuple_invalid_for_model"
+			inv = " state_has_tuple_invalid_for_model"
+			break
 		}
 	}
 	if !ReachesKind(e.Sc.Model, rm.ObjType(rq.Obj), rq.Rel, rm.Difference) {
-		return ""
+		return inv
 	}
 	switch {
 	case st.ShadowedSibling(rq.User, rq.Ctx):
-		return " under_exclusion unsatisfied_conditional_tuple_shadows_sibling_of_same_object"
+		return inv + " under_exclusion unsatisfied_conditional_tuple_shadows_sibling_of_same_object"
 	case st.DiffSubtrahendReachesCycle(rq.Obj, rq.Rel):
-		return " under_exclusion diff_subtrahend_reaches_tuple_cycle"
+		return inv + " under_exclusion diff_subtrahend_reaches_tuple_cycle"
 	case st.SwallowedBySibling(rq.Ctx, st.Unevaluable(rq.Ctx)):
-		return " under_exclusion condition_error_has_satisfied_sibling"
+		return inv + " under_exclusion condition_error_has_satisfied_sibling"
 	}
-	return ""
+	return inv
 }
 
 func errSig(err error) string {
